@@ -26,6 +26,8 @@ type Server struct {
 	mu             sync.RWMutex
 	logger         hclog.Logger
 	connWg         sync.WaitGroup
+	connMu         sync.Mutex // guards stopping and orders connWg.Add before connWg.Wait
+	stopping       bool
 	listener       net.Listener
 	listenerReady  bool
 	router         *Mux
@@ -221,7 +223,16 @@ func (s *Server) Run(addr string, opt ...Option) error {
 		}
 		conn.disablePanicRecovery = s.disablePanicRecovery
 		localConnID := connID
+		// don't start serving a conn once Stop is waiting for the conns to
+		// finish (and keep connWg.Add ordered before connWg.Wait)
+		s.connMu.Lock()
+		if s.stopping {
+			s.connMu.Unlock()
+			_ = c.Close()
+			return nil
+		}
 		s.connWg.Add(1)
+		s.connMu.Unlock()
 		connDone := make(chan struct{})
 		// when the server is stopped, wake up the conn's goroutines which are
 		// blocked reading from (or writing to) the client, so a client can't
@@ -317,6 +328,9 @@ func (s *Server) Stop() error {
 		s.shutdownCancel()
 	}
 	s.logger.Debug("waiting on connections to close")
+	s.connMu.Lock()
+	s.stopping = true
+	s.connMu.Unlock()
 	s.connWg.Wait()
 	s.logger.Debug("stopped")
 	return nil
